@@ -1,12 +1,15 @@
 package main
 
 import (
+	"os"
 	"go/token"
 	"strconv"
 	"strings"
 
 	"golang.org/x/tools/go/ssa"
 )
+
+var edgeDebug = os.Getenv("EDGEDEBUG") != ""
 
 // ValEdge is one possible source of a value together with the condition under which it is chosen.
 // Cond is the conjunction of the function-local conditions crossed on the way (phi edges, returns of inlined callees);
@@ -41,8 +44,30 @@ func valueEdges(c *Ctx, v ssa.Value, cond DNF) []ValEdge {
 			seen[x] = true
 			for i, e := range x.Edges {
 				ec := phiEdgeCond(rc, x, i)
+				if edgeDebug {
+					println("EDGEDEBUG phi", rc.path(x), "edge", i, rc.path(e), "ec:", ec.String(), "cond:", cond.String())
+				}
 				if ec.isFalse() {
 					continue
+				}
+				// a loop-carried phi: on a back edge, what the loop body tested about the phi concerns the value of the
+				// PREVIOUS iteration (`if failed == nil { failed = err }`), not the value the phi has afterwards; such
+				// literals must not meet the caller's facts about the final value. Dropping them weakens the edge
+				// condition (the source stays possible), which is the sound direction for a may-source enumeration.
+				if blk := x.Block(); i < len(blk.Preds) && blk.Dominates(blk.Preds[i]) {
+					self := rc.path(x)
+					var weak DNF
+					for _, cj := range ec {
+						nc := Conj{}
+						for id, l := range cj {
+							if strings.Contains(l.A.Subj, self) {
+								continue
+							}
+							nc[id] = l
+						}
+						weak = append(weak, nc)
+					}
+					ec = weak
 				}
 				full := safeAndDNF(cond, ec)
 				// what is known about the phi (nil / non-nil) holds for the value chosen on this edge
